@@ -132,6 +132,12 @@ class EmissionModel:
     def shadow_of(self, e: Emission):
         """(index of the pre-empting production) when this emission's root production, with the child productions its
         world fixed, can never be selected by the ordered-choice parser; None when reachable"""
+        cache = self.__dict__.setdefault('_shadow_cache', {})
+        if id(e) not in cache:
+            cache[id(e)] = self._shadow_of(e)
+        return cache[id(e)]
+
+    def _shadow_of(self, e: Emission):
         r = e.production
         if r is None or e.token_cls not in self.g.composites:
             return None
@@ -139,6 +145,12 @@ class EmissionModel:
 
     def occurrences(self, translator: str, token_cls: str):
         """(parent emission, child path) for every place the pair is invoked from"""
+        cache = self.__dict__.setdefault('_occ_cache', {})
+        if (translator, token_cls) not in cache:
+            cache[(translator, token_cls)] = self._occurrences(translator, token_cls)
+        return cache[(translator, token_cls)]
+
+    def _occurrences(self, translator: str, token_cls: str):
         out = []
         for ems in self.pairs.values():
             for pe in ems:
@@ -149,21 +161,31 @@ class EmissionModel:
         return out
 
     def unreachable(self, e: Emission) -> str | None:
-        """reason why this emission cannot occur, or None"""
+        """reason why this emission cannot occur, or None (cached)"""
+        cache = self.__dict__.setdefault('_unreach_cache', {})
+        k = id(e)
+        if k not in cache:
+            cache[k] = self._unreachable(e)
+        return cache[k]
+
+    def _unreachable(self, e: Emission) -> str | None:
         sh = self.shadow_of(e)
         if sh is not None:
             return f'production[{e.production}] is always pre-empted by production[{sh}] of {e.token_cls}'
         r = e.production
-        if r is None or (e.translator, e.token_cls) == (ENTRY_TRANSLATOR, ENTRY):
+        if (e.translator, e.token_cls) == (ENTRY_TRANSLATOR, ENTRY):
             return None
         occ = self.occurrences(e.translator, e.token_cls)
         if not occ:
             return None
         reasons = []
         for pe, path in occ:
-            if self.shadow_of(pe) is not None:
-                reasons.append('parent shadowed')
+            psh = self.shadow_of(pe)
+            if psh is not None:
+                reasons.append(f'only invoked from {pe.token_cls}/production[{pe.production}], which production[{psh}] pre-empts')
                 continue
+            if r is None:
+                return None
             if len(path) != 1 or pe.production is None:
                 return None
             fixed = pe.outcome.world.get(('prod', path))
